@@ -1,7 +1,7 @@
 (* Entry point of the executable model: one case tree in, one result tree out. The first leaf selects
    the property, the second the operation. The harness sends the same case to the implementation. *)
 From ToughV Require Import Model.Base Model.Pct Model.Json Model.CJson Model.ClientRun Model.TName
-     Model.Glob Model.Deleg.
+     Model.Glob Model.Deleg Model.Keys.
 
 Definition run_C16 (op : N) (a : list tree) : tree :=
   match op, a with
@@ -71,6 +71,34 @@ Definition run_C07 (op : N) (a : list tree) : tree :=
     | _ => T [L 999]
     end.
 
+(* op 0: [[idtext, calculated id]...] -> [n accepted] | [] ; op 1: hex_encode; op 2: hex_decode;
+   op 3: [alg(0 rsa,1 ec), key bytes] -> DER ; op 4: [alg, DER] -> decoded key *)
+Definition run_C13 (op : N) (a : list tree) : tree :=
+  if op =? 0 then
+    match a with
+    | [entries] =>
+        let es := map (fun e => (t_bytes (t_nth e 0), t_bytes (t_nth e 1))) (t_list entries) in
+        match parse_keys bytes (fun k => k) [] es with
+        | Some m => T [L (N.of_nat (length m))]
+        | None => T []
+        end
+    | _ => T [L 999]
+    end
+  else if op =? 1 then match a with [b] => of_bytes (hex_encode (t_bytes b)) | _ => T [L 999] end
+  else if op =? 2 then match a with [s] => of_opt of_bytes (hex_decode (t_bytes s)) | _ => T [L 999] end
+  else if op =? 3 then
+    match a with
+    | [alg; b] => of_bytes (if t_N alg =? 0 then spki_encode OID_RSA None (t_bytes b)
+                            else spki_encode OID_EC (Some OID_P256) (t_bytes b))
+    | _ => T [L 999]
+    end
+  else
+    match a with
+    | [alg; d] => of_opt of_bytes (if t_N alg =? 0 then spki_decode OID_RSA None (t_bytes d)
+                                   else spki_decode OID_EC (Some OID_P256) (t_bytes d))
+    | _ => T [L 999]
+    end.
+
 Definition run_case (t : tree) : tree :=
   match t with
   | T (L p :: L op :: args) =>
@@ -78,6 +106,7 @@ Definition run_case (t : tree) : tree :=
       else if p =? 11 then run_C11 op args
       else if p =? 8 then run_C08 op args
       else if p =? 7 then run_C07 op args
+      else if p =? 13 then run_C13 op args
       else if p =? 6 then run_client op args
       else T [L 999]
   | _ => T [L 999]
